@@ -138,6 +138,10 @@ func (a *MobileIdentity5GS) GetSUCI() string {
 		if supiFormat == suci {
 			return naiToString(a.Buffer)
 		}
+		// IMSI format: type, PLMN (3), routing indicator (2), protection scheme, key identifier
+		if len(a.Buffer) < 8 {
+			return ""
+		}
 
 		mcc := a.GetMCC()
 		mnc := a.GetMNC()
@@ -166,7 +170,7 @@ func (a *MobileIdentity5GS) GetSUCI() string {
 				msinBytes = append(msinBytes, bits.RotateLeft8(a.Buffer[i], 4))
 			}
 			schemeOutput = hex.EncodeToString(msinBytes)
-			if schemeOutput[len(schemeOutput)-1] == 'f' {
+			if len(schemeOutput) > 0 && schemeOutput[len(schemeOutput)-1] == 'f' {
 				schemeOutput = schemeOutput[:len(schemeOutput)-1]
 			}
 		} else {
@@ -219,11 +223,17 @@ func (a *MobileIdentity5GS) Get5GGUTI() string {
 
 // GetAmfID
 func (a *MobileIdentity5GS) GetAmfID() string {
+	if len(a.Buffer) < 7 {
+		return ""
+	}
 	return hex.EncodeToString(a.Buffer[4:7])
 }
 
 // GetAmfRegionID
 func (a *MobileIdentity5GS) GetAmfRegionID() string {
+	if len(a.Buffer) < 5 {
+		return ""
+	}
 	return hex.EncodeToString(a.Buffer[4:5])
 }
 
@@ -238,6 +248,9 @@ func (a *MobileIdentity5GS) GetAmfSetID() string {
 
 	if idType == "5G-S-TMSI" && err == nil {
 		amfSetStartPoint = 1
+	}
+	if len(a.Buffer) < amfSetStartPoint+2 {
+		return ""
 	}
 
 	amfSetID := (uint16(a.Buffer[amfSetStartPoint])<<2 + uint16((a.Buffer[amfSetStartPoint+1])&GetBitMask(8, 2))>>6)
@@ -256,6 +269,9 @@ func (a *MobileIdentity5GS) GetAmfPointer() string {
 	if idType == "5G-S-TMSI" && err == nil {
 		amfPointerStartPoint = 2
 	}
+	if len(a.Buffer) <= amfPointerStartPoint {
+		return ""
+	}
 	AMFPointer := (a.Buffer[amfPointerStartPoint]) & GetBitMask(6, 0)
 	AMFPointer_string := strconv.FormatUint(uint64(AMFPointer), 10)
 	return AMFPointer_string
@@ -264,6 +280,9 @@ func (a *MobileIdentity5GS) GetAmfPointer() string {
 // Get5GTMSI
 func (a *MobileIdentity5GS) Get5GTMSI() string {
 	idType, err := a.GetTypeOfIdentity()
+	if len(a.Buffer) < 7 {
+		return ""
+	}
 	if idType == "5G-GUTI" && err == nil {
 		tmsi5G_string := hex.EncodeToString(a.Buffer[7:])
 		return tmsi5G_string
